@@ -532,6 +532,7 @@ func c02CoversWhole(r *Run, fn *ssa.Function, c *ssa.Call, s ssa.Value, p *ssa.P
 // its position.  Every result is the constant false or that verdict.
 func c02EqualFuncFacts(r *Run, fn *ssa.Function, c *ssa.Call) {
 	s1, s2, eq := c.Call.Args[0], c.Call.Args[1], c.Call.Args[2]
+	r.Assume("slices.EqualFunc(s1, s2, eq) is true iff len(s1) = len(s2) and eq(s1[i], s2[i]) holds for every i (standard library)")
 	miss := c02CoversWhole(r, fn, c, s1, fn.Params[0], true)
 	d := "slices.EqualFunc compares every element of " + clipStr(r.D.D(s1), 80) + " (the whole submitted chain on every path to the comparison)"
 	if miss != "" {
